@@ -1,4 +1,5 @@
 import KojenVerif.Lemmas.EngineInner
+import KojenVerif.Lemmas.Table
 import KojenVerif.Lemmas.EngineFilter
 import KojenVerif.Lemmas.EngineSig
 import KojenVerif.Lemmas.EnginePgt
@@ -372,6 +373,29 @@ example : pstExpand exTable ((exPst.map Spec.PstItem.render).flatten) [] =
           T " on Off in idle\n",
           T "    /* nothing to do */\n", T "    next = Run;\n", T "  \n", T "  done\n",
           T "state Run\n"] := by decide
+
+/-! rows without an event (the event cell is '' / None / none): the row registers its states - `Boot`, whose first row
+    has no event, comes first - its action and guard, and belongs to no event -/
+def exTableNoEv : List Table.Row :=
+  [ { src := T "Boot", ev := T "None", next := some (T "Idle"), action := some (T "Init"), guard := none, noEv := true },
+    { src := T "Idle", ev := T "Go", next := some (T "Run"), action := none, guard := none },
+    { src := T "Boot", ev := T "Go", next := none, action := none, guard := some (T "IsCold") } ]
+example : Table.perStateKeys exTableNoEv = [T "Boot", T "Idle", T "Run"] ∧ Table.events exTableNoEv = [T "Go"] ∧
+    Table.eventsOf exTableNoEv (T "Boot") = [T "Go"] ∧ Table.actions exTableNoEv = [T "Init"] ∧
+    (Table.rowsFor exTableNoEv (T "Boot") (T "None")).length = 0 := by decide
+example : pstExpand exTableNoEv ((exPst.map Spec.PstItem.render).flatten) [] =
+    some [T "state Boot\n",
+          T " on Go in boot\n",
+          T "  if (IsCold()) {\n", T "    /* nothing to do */\n", T "  \n", T "  done\n",
+          T "state Idle\n",
+          T " on Go in idle\n",
+          T "    /* nothing to do */\n", T "    next = Run;\n", T "  \n", T "  done\n",
+          T "state Run\n"] := by decide
+
+/-- a row without an event belongs to no event of its state, whatever it is called -/
+theorem C16_rows_without_event (t : List Table.Row) (s e : Str) :
+    e ∈ Table.eventsOf t s ↔ ∃ r ∈ t, r.noEv = false ∧ r.src = s ∧ r.ev = e :=
+  KojenVerif.Table.mem_eventsOf t s e
 
 /-! non-vacuity of the whole-file theorem: lines, a state block, the nested transition block, a guard block -/
 def exModel : Spec.Model := { table := exTable, structNames := [], protoNames := [], msgNames := [] }
